@@ -32,3 +32,75 @@ def static_cases(jobs):
         out.append({"id": job["id"], "props": job["props"], "world": job["world"], "steps": steps})
         bw.cleanup()
     return out
+
+
+def _order_fn(mode):
+    """Harness-chosen iteration order for the order hook: canonicalise by a
+    stable key first so that the chosen order does not depend on hashing."""
+    import random as _r
+
+    def key(x):
+        if isinstance(x, tuple) and x and callable(x[0]):
+            x = x[0]
+        return (getattr(x, "__name__", None) or repr(x), repr(x))
+
+    def fn(site, xs):
+        try:
+            li = sorted(list(xs), key=key)
+        except Exception:
+            li = list(xs)
+        if mode == "sorted":
+            return li
+        if mode == "reverse":
+            return li[::-1]
+        if mode.startswith("shuffle:"):
+            _r.Random(mode + site + str(len(li))).shuffle(li)
+            return li
+        if mode.startswith("rotate:"):
+            k = int(mode.split(":")[1]) % max(1, len(li))
+            return li[k:] + li[:k]
+        return li
+
+    return fn
+
+
+def context_cases(jobs):
+    """job = {id, world, call, contexts:[{name, methods, order}]}: the same call
+    in several contexts; returns a case whose steps are the contexts."""
+    from ovld import _verif
+
+    from .observe import Observer
+    from .realize import BuiltWorld
+
+    out = []
+    keep = []
+    for job in jobs:
+        steps = []
+        skip = None
+        for ctx in job["contexts"]:
+            w = dict(job["world"])
+            w["methods"] = ctx["methods"]
+            if ctx.get("junk"):
+                keep.append([object() for _ in range(ctx["junk"])])
+            try:
+                bw = BuiltWorld(w)
+                fs = bw.build_functions()
+            except Exception as e:
+                skip = f"{type(e).__name__}: {e}"
+                break
+            ob = Observer(bw)
+            if ctx.get("order"):
+                _verif.install(order=_order_fn(ctx["order"]))
+            try:
+                obs = ob.call(fs[1], job["call"], resolve=False)
+                if ctx.get("again"):
+                    obs = ob.call(fs[1], job["call"], resolve=False)
+            finally:
+                _verif.install()
+            steps.append({"call": job["call"], "methods": ctx["methods"], "ctx": ctx["name"], "obs": obs})
+            bw.cleanup()
+        if skip:
+            out.append({"id": job["id"], "skip": skip})
+        else:
+            out.append({"id": job["id"], "props": job["props"], "world": {k: v for k, v in job["world"].items() if k != "methods"} | {"methods": job["contexts"][0]["methods"]}, "steps": steps})
+    return out
